@@ -151,6 +151,17 @@ func main() {
 		}
 		abs, _ := filepath.Abs(os.Args[3])
 		os.Exit(runCheck(os.Args[2], "quick", abs))
+	case "fuzz":
+		if len(os.Args) < 5 {
+			die2("usage: fuzz <ID> <FuzzTarget> <duration> [workers]")
+		}
+		w := 16
+		if len(os.Args) >= 6 {
+			if v, err := strconv.Atoi(os.Args[5]); err == nil && v > 0 {
+				w = v
+			}
+		}
+		os.Exit(runFuzz(os.Args[2], os.Args[3], os.Args[4], w))
 	case "warm":
 		os.Exit(warm())
 	default:
@@ -614,4 +625,62 @@ func firstLines(s string, n int) string {
 		lines = append(lines[:n], "…")
 	}
 	return strings.Join(lines, "\n    ")
+}
+
+// runFuzz runs one native coverage-guided campaign (go test -fuzz) of a check package's fuzz target.
+// It is an exploration tool, not a registered check: Go's fuzzer cannot be pinned to a seed, so the
+// deterministic tiers replay what campaigns found (corpus/<id>/) instead of fuzzing live. The campaign
+// runs in a scratch directory under .work; the generated corpus is kept under .work/fuzz-<ID>-<target>/corpus
+// (for harvesting), a failing input is decoded into replays/<ID>/.
+func runFuzz(id, target, dur string, workers int) int {
+	c, ok := checks[id]
+	if !ok {
+		die2("unknown property %q", id)
+	}
+	work := filepath.Join(root, ".work", fmt.Sprintf("fuzz-%s-%s", id, target))
+	os.MkdirAll(filepath.Join(work, "cwd"), 0o755)
+	os.MkdirAll(filepath.Join(work, "out"), 0o755)
+	extra, err := buildArgs(work)
+	if err != nil {
+		die2("%v", err)
+	}
+	bin := filepath.Join(work, "fuzz.bin")
+	args := []string{"test", "-c", "-tags", "verif", "-vet=off", "-fuzz", "^" + target + "$", "-o", bin}
+	args = append(args, extra...)
+	args = append(args, c.Pkg)
+	cmd := exec.Command("go", args...)
+	cmd.Dir = root
+	cmd.Env = goEnv()
+	if out, err := cmd.CombinedOutput(); err != nil {
+		fmt.Printf("%s\n", out)
+		die2("fuzz binary does not build")
+	}
+	run := exec.Command(bin, "-test.run", "^$", "-test.fuzz", "^"+target+"$", "-test.fuzztime", dur,
+		"-test.fuzzcachedir", filepath.Join(work, "corpus"), "-test.parallel", strconv.Itoa(workers), "-test.timeout", "0")
+	run.Dir = filepath.Join(work, "cwd")
+	run.Env = append(os.Environ(), "VERIF_ROOT="+root, "VERIF_OUT="+filepath.Join(work, "out"), "VERIF_TIER=thorough",
+		"VERIF_SEED=1", "VERIF_SHARD=0", "VERIF_NSHARDS=1", "VERIF_REPO="+repoDir(), "VERIF_FUZZ=1")
+	run.Stdout = os.Stdout
+	run.Stderr = os.Stderr
+	rerr := run.Run()
+	// crashers
+	ms, _ := filepath.Glob(filepath.Join(work, "cwd", "testdata", "fuzz", target, "*"))
+	for _, f := range ms {
+		b, _ := os.ReadFile(f)
+		lines := strings.SplitN(string(b), "\n", 3)
+		if len(lines) >= 2 && strings.HasPrefix(lines[1], "[]byte(") {
+			q := strings.TrimSuffix(strings.TrimPrefix(strings.TrimSpace(lines[1]), "[]byte("), ")")
+			if raw, err := strconv.Unquote(q); err == nil {
+				dir := filepath.Join(root, "replays", id)
+				os.MkdirAll(dir, 0o755)
+				dst := filepath.Join(dir, "fuzz-"+target+"-"+filepath.Base(f)+".ll")
+				os.WriteFile(dst, []byte(raw), 0o644)
+				fmt.Printf("FUZZ-FAILURE property=%s replay=%s\n", id, dst)
+			}
+		}
+	}
+	if rerr != nil {
+		return 1
+	}
+	return 0
 }
